@@ -5,6 +5,7 @@ import (
 	"go/ast"
 	"go/token"
 	"go/types"
+	"os"
 	"strings"
 )
 
@@ -333,12 +334,53 @@ func CheckBounds(f *FuncInfo) ([]*BoundsUse, error) {
 	}
 	fl := f.Flow()
 	visited := map[string]bool{}
+	// guard helpers: a call H(.., v, ..) of a repository function that returns an error; when it returned nil on this
+	// path, v has the bounds that every nil-returning path of H establishes for the corresponding parameter
+	helperArg := func(ce *ast.CallExpr) (*FuncInfo, map[int]*types.Var) {
+		fn, ok := Callee(info, ce).(*types.Func)
+		if !ok {
+			return nil, nil
+		}
+		h := f.Prog.FuncOf(fn)
+		if h == nil || h.Decl == nil || h.ErrResultIndex() < 0 || h == f.Root() {
+			return nil, nil
+		}
+		args := map[int]*types.Var{}
+		for i, a := range ce.Args {
+			x := ast.Unparen(a)
+			for {
+				c2, isCall := x.(*ast.CallExpr)
+				if !isCall || len(c2.Args) != 1 {
+					break
+				}
+				if tv, has := info.Types[c2.Fun]; !has || !tv.IsType() {
+					break
+				}
+				x = ast.Unparen(c2.Args[0])
+			}
+			if id, ok := x.(*ast.Ident); ok {
+				if v, ok := info.ObjectOf(id).(*types.Var); ok && w[v] {
+					args[i] = v
+				}
+			}
+		}
+		if len(args) == 0 {
+			return nil, nil
+		}
+		return h, args
+	}
 	complete := fl.ExplorePaths(func(k VarKey, fct Fact) bool {
 		if k.Root == nil && strings.HasPrefix(k.Path, "cond:") && fct.Def != nil {
 			for v := range w {
 				if mentionsVar(info, fct.Def, v) {
 					return true
 				}
+			}
+		}
+		// the error variable of a guard helper call, and the recorded outcome of that call
+		if ce, ok := fct.Def.(*ast.CallExpr); ok {
+			if h, _ := helperArg(ce); h != nil {
+				return true
 			}
 		}
 		return false
@@ -388,6 +430,32 @@ func CheckBounds(f *FuncInfo) ([]*BoundsUse, error) {
 					}
 				}
 			}
+			// guard helpers that returned nil on this path
+			for k, fct := range st {
+				if k.Root != nil || !strings.HasPrefix(k.Path, "ok:") {
+					continue
+				}
+				ce, ok := fct.Def.(*ast.CallExpr)
+				if !ok {
+					continue
+				}
+				h, args := helperArg(ce)
+				if h == nil {
+					continue
+				}
+				for i, av := range args {
+					if av != r.v {
+						continue
+					}
+					lo, up := guardSummary(h, i)
+					if lo {
+						lower = true
+					}
+					if up && r.kind == "make" {
+						upper = true
+					}
+				}
+			}
 			if !lower {
 				u.LowerOK = false
 			}
@@ -407,6 +475,83 @@ func CheckBounds(f *FuncInfo) ([]*BoundsUse, error) {
 		out = append(out, u)
 	}
 	return out, nil
+}
+
+var guardSummaryCache = map[string][2]bool{}
+
+// guardSummary: what every nil-returning path of the error-returning function h establishes about its i-th
+// parameter: a lower bound (>= 0) and an upper bound (compared against anything; only used for allocation sizes).
+func guardSummary(h *FuncInfo, i int) (lower, upper bool) {
+	key := fmt.Sprintf("%s#%d", h.Name, i)
+	if v, ok := guardSummaryCache[key]; ok {
+		return v[0], v[1]
+	}
+	guardSummaryCache[key] = [2]bool{false, false}
+	info := h.Info()
+	var pv *types.Var
+	k := 0
+	for _, fld := range h.Decl.Type.Params.List {
+		for _, nm := range fld.Names {
+			if k == i {
+				pv, _ = info.Defs[nm].(*types.Var)
+			}
+			k++
+		}
+		if len(fld.Names) == 0 {
+			k++
+		}
+	}
+	if pv == nil || assignCount(h, info, pv) > 0 {
+		return false, false
+	}
+	lower, upper = true, true
+	typeLower := false
+	if b, ok := pv.Type().Underlying().(*types.Basic); ok && b.Info()&types.IsUnsigned != 0 {
+		typeLower = true
+	}
+	seen := 0
+	complete := h.Flow().ExplorePaths(func(k VarKey, fct Fact) bool {
+		return k.Root == nil && strings.HasPrefix(k.Path, "cond:") && fct.Def != nil && mentionsVar(info, fct.Def, pv)
+	}, func(e *Event, st State) {
+		if e.Kind != EvReturn {
+			return
+		}
+		fact, _ := h.ReturnErrFact(e)
+		if fact.Nil == NonNil {
+			return
+		}
+		seen++
+		var atoms []atomFact
+		for k, fct := range st {
+			if k.Root == nil && strings.HasPrefix(k.Path, "cond:") && fct.Def != nil && fct.Bool != 0 {
+				implied(fct.Def, fct.Bool == 1, &atoms)
+			}
+		}
+		lo, up := typeLower, false
+		for _, a := range atoms {
+			l, u := guardKind(info, a, pv, false)
+			if l {
+				lo = true
+			}
+			if u != "" {
+				up = true
+			}
+		}
+		if !lo {
+			lower = false
+		}
+		if !up {
+			upper = false
+		}
+	})
+	if os.Getenv("VERIFCHECK_DEBUG") != "" {
+		fmt.Fprintf(os.Stderr, "guardSummary %s#%d complete=%v seen=%d lower=%v upper=%v\n", h.Name, i, complete, seen, lower, upper)
+	}
+	if !complete || seen == 0 {
+		lower, upper = false, false
+	}
+	guardSummaryCache[key] = [2]bool{lower, upper}
+	return
 }
 
 // defIsUnsignedNarrow: every definition of v is a conversion of a binary.UintNN result with NN < 64
